@@ -59,6 +59,16 @@ CHECKS["C04"] = ("proof",
     "remove(leaf), cursor' = parent); exit writes nothing; the written induction in the evidence turns the table into 'exactly the subtree is deleted'.",
     "5/C04", E2NOTE + " The induction over iterations is a fixed written argument (evidence.written_induction_remove_subtree), not re-derived per run.", E2TECH + " + loop-invariant (generic iteration) analysis")
 
+CHECKS["C06"] = ("proof",
+    "The generation arithmetic (as_removed, reuseable, reuse) is read from MIR as piecewise-affine functions over the whole i16 range, symbolically: removed stamps are negative, "
+    "recycled stamps are strictly larger than the previous live stamp and stay in range, exhausted slots are retired; is_removed methods are decision tables; writer/caller "
+    "inventories show no other code touches a stamp. The 'never reissued / stays removed' conclusion is the two-line induction in the evidence.",
+    "5/C06", E2NOTE, "abstract interpretation of MIR with an affine/interval numeric domain + who-may-write/who-may-call rules")
+CHECKS["C07"] = ("proof",
+    "free_node / new_node / clear compared, case by case over the materialised free-list shape and stamp piece, with the FIFO model (append non-member at tail, pop head, retire "
+    "exhausted slots, push only when the list is empty); frame: no other node written; the only length-changing Vec calls on the slot vector are that push and that clear.",
+    "5/C07", E2NOTE + " free_node is analysed under its internal precondition (node already unlinked), which C04 establishes at its only call site.", E2TECH + " (free-list part of the heap domain) + call inventory")
+
 PENDING = "check under construction in this build round (DESIGN.md section 10); not claimed until its engine part exists"
 
 NOT_APPLICABLE = {}
@@ -101,7 +111,7 @@ def main():
              "kind_free_text": "rustc_private driver exporting ADTs, impls and MIR with resolved callees as JSON, per profile x feature set"},
             {"name": "E1 rules", "path": "vlib/rules.py", "serves_properties": props,
              "kind_free_text": "call graph, CFG/dominators, field-site index, origin (value-flow) rules over the exported program"},
-            {"name": "E2 absint", "path": "vlib/absint", "serves_properties": ["C01", "C02", "C03", "C04", "C05", "C12"],
+            {"name": "E2 absint", "path": "vlib/absint", "serves_properties": ["C01", "C02", "C03", "C04", "C05", "C06", "C07", "C12"],
              "kind_free_text": "path-sensitive abstract interpreter over MIR with a shape domain (lazily materialised individuals, integrity constraints J)"},
             {"name": "E3 witness", "path": "witness", "serves_properties": ["C18", "C13"],
              "kind_free_text": "compile_fail,E0xxx doc-tests with compiling twins + generic witness functions (cargo +nightly test --doc)"},
